@@ -1,6 +1,7 @@
 (* Submit/Model.v — C09. sunlight's own decision logic of the submission endpoints
    (internal/ctlog/http.go: addChain, addPreChain, addChainOrPreChain, lowPriority, getRoots;
    internal/ctlog/ctlog.go: SetRootsFromPEM, RootsPEM, rootPool, the roots part of LoadLog)
+   as of /repo 48383da,
    over an ABSTRACT certificate chain. Definitions only (proofs: Submit/Proofs.v).
 
    Everything that is a dependency of sunlight is a Section variable (an oracle):
@@ -56,6 +57,12 @@ Definition max_body : N := 131072.
 
 Definition zero32 : bytes := zeros 32.
 
+(* the two status codes that /repo changed: before commits ac90d60 and 48383da an oversize body
+   and a failing x509.BuildPrecertTBS were both answered 500; now 413 and 400 *)
+Record codes := mkCodes { k_oversize : Z; k_tbs : Z }.
+Definition fixed_codes : codes := mkCodes 413 400.    (* the code as it is now *)
+Definition prefix_codes : codes := mkCodes 500 500.   (* the code before the two fix commits *)
+
 Section Oracles.
 Variable parse_body : bytes -> option (list bytes).
 Variable validate : list bytes -> window -> list bytes -> option (list acert).
@@ -80,9 +87,10 @@ Definition low_priority (now : Z) (c : acert) : bool :=
 Definition finish (ep : endpoint) (e : pending) (low : bool) : outcome :=
   if check_type ep e then Rejected 400 else Accepted e low.
 
-(* addChainOrPreChain, in the order of the code *)
-Definition handler (ep : endpoint) (roots : list bytes) (win : window) (now : Z) (body : bytes) : outcome :=
-  if max_body <? blen body then Rejected 500              (* io.ReadAll error: "failed to read body" *)
+(* addChainOrPreChain, in the order of the code; k: the two status codes above *)
+Definition handler_gen (k : codes) (ep : endpoint) (roots : list bytes) (win : window) (now : Z) (body : bytes) : outcome :=
+  if max_body <? blen body then Rejected (k_oversize k)    (* io.ReadAll fails with http.MaxBytesError:
+                                                             "request body too large", 413 *)
   else match parse_body body with
   | None => Rejected 400                                  (* "failed to parse request" *)
   | Some raws =>
@@ -108,7 +116,7 @@ Definition handler (ep : endpoint) (roots : list bytes) (win : window) (now : Z)
               if (match pre_issuer with Some _ => true | None => false end) && (length chain <? 3)%nat
               then Rejected 400                           (* "missing precertificate signing certificate issuer" *)
               else match build_precert_tbs (c_tbs c0) pre_issuer with
-              | None => Rejected 500                      (* "failed to build TBSCertificate" *)
+              | None => Rejected (k_tbs k)                (* "failed to build TBSCertificate", 400 *)
               | Some tbs =>
                 let ikh := match pre_issuer with
                            | Some _ => match nth_error chain 2 with
@@ -128,6 +136,11 @@ Definition handler (ep : endpoint) (roots : list bytes) (win : window) (now : Z)
       end
     end
   end.
+
+(* the handler of /repo's current source, and the one before the fix commits (kept so that a
+   regression to the old behaviour is explained by the C09_prefix theorems) *)
+Definition handler := handler_gen fixed_codes.
+Definition handler_prefix := handler_gen prefix_codes.
 
 (* the "low_priority" label of the addchain_requests_total metric: set only after validation *)
 Definition low_label (roots : list bytes) (win : window) (now : Z) (body : bytes) : option bool :=
